@@ -12,32 +12,63 @@ BASE_NOTE = (
 )
 
 CLAIMED = {
-    "C15": dict(category="proof", technique="contract-based deductive verification (pyvc VCs from real source + z3); bounded run-time contracts as stand-in", text="(in progress)", design_ref="DESIGN.md 4 (C15)", note=BASE_NOTE),
-    "C04": dict(category="proof", technique="contract-based deductive verification (pyvc VCs from real source + z3); bounded run-time contracts as stand-in", text="(in progress)", design_ref="DESIGN.md 4 (C04)", note=BASE_NOTE),
-    "C09": dict(category="proof", technique="contract-based deductive verification (pyvc VCs from real source + z3); arraymap get/set as assumed contracts checked at run time over exhaustive bounded operation sequences", text="(in progress)", design_ref="DESIGN.md 4 (C09)", note=BASE_NOTE),
-    "C01": dict(category="other", technique="contract-based deductive verification of the kernel functions (pyvc + z3) + exhaustive run-time detailed-balance contracts on small state spaces (bounded)", text="(in progress)", design_ref="DESIGN.md 4 (C01)", note=BASE_NOTE),
-    "C05": dict(category="other", technique="contract-based deductive verification of the kernel functions (pyvc + z3) + run-time contracts over exhaustively enumerated bounded domains", text="(in progress)", design_ref="DESIGN.md 4 (C05)", note=BASE_NOTE),
-    "C02": dict(category="other", technique="contract-based deductive verification of the kernel functions (pyvc + z3) + run-time contracts over exhaustively enumerated bounded domains", text="(in progress)", design_ref="DESIGN.md 4 (C02)", note=BASE_NOTE),
-    "C03": dict(category="other", technique="contract-based deductive verification of the kernel functions (pyvc + z3) + run-time contracts over exhaustively enumerated bounded domains", text="(in progress)", design_ref="DESIGN.md 4 (C03)", note=BASE_NOTE),
-    "C17": dict(category="other", technique="run-time contracts on the real kernels over exhaustively enumerated bounded domains against a brute-force model of the inheritance process (bounded stand-in; no deductive contract discharged yet)", text="(in progress)", design_ref="DESIGN.md 4 (C17)", note=BASE_NOTE),
-    "C18": dict(category="other", technique="run-time contracts on the real kernels over exhaustively enumerated bounded domains against a brute-force model of the inheritance process (bounded stand-in; no deductive contract discharged yet)", text="(in progress)", design_ref="DESIGN.md 4 (C18)", note=BASE_NOTE),
-    "C14": dict(category="exploration", technique="run-time contracts evaluated on the real functions over enumerated / seeded bounded domains (bounded stand-in: this Python glue is outside the reach of the VC generator)", text="(in progress)", design_ref="DESIGN.md 4 (C14)", note=BASE_NOTE),
-    "C13": dict(category="exploration", technique="run-time contracts evaluated on the real functions over enumerated / seeded bounded domains (bounded stand-in: this Python glue is outside the reach of the VC generator)", text="(in progress)", design_ref="DESIGN.md 4 (C13)", note=BASE_NOTE),
-    "C16": dict(category="exploration", technique="run-time contracts evaluated on the real functions over enumerated / seeded bounded domains (bounded stand-in: this Python glue is outside the reach of the VC generator)", text="(in progress)", design_ref="DESIGN.md 4 (C16)", note=BASE_NOTE),
-    "C20": dict(category="exploration", technique="run-time contracts evaluated on the real functions over enumerated / seeded bounded domains (bounded stand-in: this Python glue is outside the reach of the VC generator)", text="(in progress)", design_ref="DESIGN.md 4 (C20)", note=BASE_NOTE),
-    "C12": dict(category="exploration", technique="run-time contracts evaluated on the real functions over enumerated / seeded bounded domains (bounded stand-in: this Python glue is outside the reach of the VC generator)", text="(in progress)", design_ref="DESIGN.md 4 (C12)", note=BASE_NOTE),
-    "C19": dict(category="other", technique="call-site contract obligation (forwarded keyword arguments vs the documented pysam pileup interface) + run-time contract on a synthetic BAM (bounded)", text="(in progress)", design_ref="DESIGN.md 4 (C19)", note=BASE_NOTE),
-    "C06": dict(category="exploration", technique="run-time contracts on the real functions / CLI over synthetic inputs with content known by construction (bounded stand-in; the pysam / multiprocessing / string code is outside the reach of the VC generator)", text="(in progress)", design_ref="DESIGN.md 4 (C06)", note=BASE_NOTE),
-    "C07": dict(category="exploration", technique="run-time contracts on the real functions / CLI over synthetic inputs with content known by construction (bounded stand-in; the pysam / multiprocessing / string code is outside the reach of the VC generator)", text="(in progress)", design_ref="DESIGN.md 4 (C07)", note=BASE_NOTE),
-    "C08": dict(category="exploration", technique="run-time contracts on the real functions / CLI over synthetic inputs with content known by construction (bounded stand-in; the pysam / multiprocessing / string code is outside the reach of the VC generator)", text="(in progress)", design_ref="DESIGN.md 4 (C08)", note=BASE_NOTE),
-    "C11": dict(
-        category="proof",
-        technique="contract-based deductive verification: sidecar contracts on the real functions, VCs generated from /repo source by pyvc, discharged by z3 (unbounded); run-time contracts on a bounded grid as stand-in for the not-yet-proved functions",
-        text="U (proved, all inputs): jitutils._greatest_common_denominatior returns a common divisor; jitutils._comb(n,k) == C(n,k) (Pascal-defined spec) with every int64 intermediate in range whenever C(n,k) < 2^53 (n < 2^62), via ghost lemmas (multiplicative recurrence, symmetry, monotonicity, C(2k,k) >= 2^k). "
-        "Bounded (never counted as proved): comb/comb_with_replacement/genotype_alleles_as_index/index_as_genotype_alleles/increment_genotype/count_unique_genotypes against math.comb and an explicit colex enumeration on a stated grid.",
-        design_ref="DESIGN.md 4 (C11), Appendix A.1-A.4",
-        note=BASE_NOTE + "cwr(0,0)=0 is the code's documented quirk and excluded (n_alleles >= 1).",
-    ),
+    "C11": dict(category="proof", technique='contract-based deductive verification: sidecar contracts on the real functions, VCs generated from /repo source by pyvc (loop invariants, ghost lemmas, callee contracts), discharged by z3' + "; " + 'run-time contracts of the property evaluated on the real functions over enumerated / seeded bounded domains against oracles written from the property statement (bounded stand-in, never counted as proved)',
+        text="Proved for all inputs: gcd divides; _comb(n,k) == C(n,k) (Pascal-defined spec) with every int64 intermediate in range whenever C(n,k) < 2^53 (n < 2^62); both 100x12 tables; comb / comb_with_replacement; genotype_alleles_as_index == IDX (VCF order) for sorted tuples with < 2^53 genotypes; increment_genotype is the successor (IDX+1, sorted); index_as_genotype_alleles is a right inverse (index < 2^53, ploidy <= 255); IDX injective and IDX < cwr(n,P) iff max allele < n (bijection onto 0..N-1). Bounded: same functions and scipy-based count_unique_genotypes on a grid vs math.comb / explicit colex enumeration.",
+        design_ref="DESIGN.md 4 (C11)", note=BASE_NOTE + "cwr(0,0)=0 is the code's documented quirk and part of the spec (claimed for >= 1 allele); side conditions n < 2^62, ploidy <= 255 for the inverse."),
+    "C04": dict(category="proof", technique='contract-based deductive verification: sidecar contracts on the real functions, VCs generated from /repo source by pyvc (loop invariants, ghost lemmas, callee contracts), discharged by z3' + "; " + 'run-time contracts of the property evaluated on the real functions over enumerated / seeded bounded domains against oracles written from the property statement (bounded stand-in, never counted as proved)',
+        text="Proved for all inputs: log_likelihood == LLK (sum over reads of count x log(mean over haplotypes of product over SNVs), NaN -> factor 1); log_likelihood_structural_change == LLK of the rearranged genotype; jitutils.structural_change implements that rearrangement; calling.log_likelihood_alleles == LLK of the gathered haplotypes. Bounded: haplotype/read order invariance, count k == k copies, pedigree zero-count masking and cache wrapper on seeded tensors (gaps, exact 0/1 calls, zero-probability non-alleles).",
+        design_ref="DESIGN.md 4 (C04)", note=BASE_NOTE + "Precondition: a zero read count never meets an impossible read (numpy 0*-inf)."),
+    "C15": dict(category="proof", technique='contract-based deductive verification: sidecar contracts on the real functions, VCs generated from /repo source by pyvc (loop invariants, ghost lemmas, callee contracts), discharged by z3' + "; " + 'run-time contracts of the property evaluated on the real functions over enumerated / seeded bounded domains against oracles written from the property statement (bounded stand-in, never counted as proved)',
+        text="Proved for all ploidies / SNV counts: mutation.compound_step fills the (h,j) table without dtype narrowing, the shuffle is a bijection and the i-th base_step call receives (sigma(i) div N, sigma(i) mod N) in range, i.e. every (haplotype, SNV) pair exactly once. Bounded: sweep recorder up to 400 SNVs, random_breaks partitions (n <= 40, 130, 300), homozygosity screen vs independent single-SNV posterior, fixed-site re-insertion in DenovoMCMC._mcmc.",
+        design_ref="DESIGN.md 4 (C15)", note=BASE_NOTE + "np.random.shuffle is a trusted bijection; random_breaks / _mcmc are not under U contract."),
+    "C09": dict(category="other", technique='contract-based deductive verification: sidecar contracts on the real functions, VCs generated from /repo source by pyvc (loop invariants, ghost lemmas, callee contracts), discharged by z3' + " against ASSUMED arraymap get/set contracts; " + 'run-time contracts of the property evaluated on the real functions over enumerated / seeded bounded domains against oracles written from the property statement (bounded stand-in, never counted as proved)',
+        text="Proved (modulo the assumed arraymap interface): log_likelihood_cached and log_likelihood_structural_change_cached return the freshly computed likelihood with or without a cache and keep the cache coherent; base_step and mutation.compound_step carry llk == LLK(current genotype) and preserve coherence. Bounded: the assumed arraymap clauses on exhaustive operation sequences (growth, flush) vs a dict model; recorded llk == recomputed llk for assemble (all temperatures, cache on/off, identical trajectory), call (Gibbs/MH) and every entry of a caller-supplied pedigree cache (unequal distinct reads per sample).",
+        design_ref="DESIGN.md 4 (C09)", note=BASE_NOTE + "arraymap.get/set are assumed contracts (R-checked); POSREADS: all likelihoods the sampler can meet are finite."),
+    "C01": dict(category="other", technique='run-time contracts of the property evaluated on the real functions over enumerated / seeded bounded domains against oracles written from the property statement (bounded stand-in, never counted as proved)' + "; " + 'contract-based deductive verification: sidecar contracts on the real functions, VCs generated from /repo source by pyvc (loop invariants, ghost lemmas, callee contracts), discharged by z3' + " for base_step and the prior closed forms",
+        text="Bounded, exhaustive: for all ordered genotypes of small instances (ploidy<=4, <=3 SNVs, bi/tri-allelic, gaps, counts) x inbreeding {0,.3} x inverse temperature {1,.6}: base_step and interval_step (recombination and dosage, 4 intervals) probability vectors captured from the real kernels satisfy detailed balance w.r.t. (lik x prior)^t over unordered genotypes and depend on the genotype only as a multiset; exchange acceptance formula and state swap; _denovo_assembler passes each chain its temperature and the same prior parameters to every move incl. the exchange. Proved: base_step's vector is a probability distribution, only cell (h,j) changes; assemble prior == (Dirichlet-)multinomial closed form.",
+        design_ref="DESIGN.md 4 (C01)", note=BASE_NOTE + "Detailed balance per move => stationarity is mathematics outside the check (A6)."),
+    "C02": dict(category="other", technique='run-time contracts of the property evaluated on the real functions over enumerated / seeded bounded domains against oracles written from the property statement (bounded stand-in, never counted as proved)',
+        text="Bounded, exhaustive over all ordered genotype vectors x positions (ploidy<=4, haplotypes<=4, F {0,.2}, flat/skewed/zero frequencies): gibbs_options == exact full conditional of lik x exchangeable-sequence prior; mh_options is a distribution in detailed balance; random scan visits every copy once, sorts, returns the llk of the final state; likelihood cache transparent for odd ploidy and up to 70 haplotypes.",
+        design_ref="DESIGN.md 4 (C02)", note=BASE_NOTE),
+    "C03": dict(category="other", technique='run-time contracts of the property evaluated on the real functions over enumerated / seeded bounded domains against oracles written from the property statement (bounded stand-in, never counted as proved)',
+        text="Bounded: streaming and full-array kernels and program.call_sample_genotypes (4 samples, mixed ploidy and inbreeding, 4 --report sets) equal the independently enumerated posterior: GT maximiser, GPM, SPM, AFP/ACP/AOP, GP in VCF order; 140-haplotype case (allele indices beyond int8).",
+        design_ref="DESIGN.md 4 (C03)", note=BASE_NOTE + "float32 GL tolerance 2e-5; exact ties skipped."),
+    "C05": dict(category="other", technique='contract-based deductive verification: sidecar contracts on the real functions, VCs generated from /repo source by pyvc (loop invariants, ghost lemmas, callee contracts), discharged by z3' + " for the assemble prior; " + 'run-time contracts of the property evaluated on the real functions over enumerated / seeded bounded domains against oracles written from the property statement (bounded stand-in, never counted as proved)',
+        text="Proved: ln_equivalent_permutations, log_genotype_null_prior, log_dirichlet_multinomial_pmf, assemble log_genotype_prior equal the lgamma closed forms with dispersion exp(log((1-F)/F) - log u). Bounded: call prior == perms x Polya-urn sequence probability and sums to one (ploidy up to 14, zero frequencies), single-allele conditional == exact conditional, assemble prior vs log-space Polya urn for every dosage partition, ploidy<=13(16), up to 2^150 haplotypes, assemble == call(flat).",
+        design_ref="DESIGN.md 4 (C05)", note=BASE_NOTE),
+    "C14": dict(category="exploration", technique='run-time contracts of the property evaluated on the real functions over enumerated / seeded bounded domains against oracles written from the property statement (bounded stand-in, never counted as proved)',
+        text="Seeded random traces (incl. 70-SNV loci, every burn-in, random within-genotype order): posterior, mode, mode support, allele frequencies / counts / occurrence, G-ordered array, chain incongruence of GenotypeMultiTrace / GenotypeAllelesMultiTrace and mset helpers equal a multiset oracle. Known finding F9 (MCI 1-vs-2 depends on chain order) is reported as KNOWN-FINDING.",
+        design_ref="DESIGN.md 4, 5 (F9)", note=BASE_NOTE),
+    "C17": dict(category="other", technique='run-time contracts of the property evaluated on the real functions over enumerated / seeded bounded domains against oracles written from the property statement (bounded stand-in, never counted as proved)',
+        text="Bounded, exhaustive over parental genotypes on 3 alleles, ploidy 2/4(/6), balanced / unbalanced / clonal tau, known / unknown parents, lambda {0,.3}, error grids: exp(trio_log_pmf) equals a brute-force union-of-gametes model pointwise and sums to one; gamete_log_pmf sums to one; zero-error positivity iff trio_valid / duo_valid; PEDERR uses the right parent / tau column.",
+        design_ref="DESIGN.md 4 (C17)", note=BASE_NOTE),
+    "C18": dict(category="other", technique='run-time contracts of the property evaluated on the real functions over enumerated / seeded bounded domains against oracles written from the property statement (bounded stand-in, never counted as proved)',
+        text="Bounded: 13 small pedigrees (founders, duo, trio, half-sibs, selfing, two generations, mixed ploidy, unbalanced and clonal gametes, two families) x seeded joint states x every (individual, allele copy): gibbs_probabilities == exact full conditional of prod L_i P(g_i|parents) (brute-force inheritance model); MH vector and parental allele exchange in detailed balance; reject restores the state.",
+        design_ref="DESIGN.md 4 (C18), 5 (F8)", note=BASE_NOTE),
+    "C13": dict(category="exploration", technique='run-time contracts of the property evaluated on the real functions over enumerated / seeded bounded domains against oracles written from the property statement (bounded stand-in, never counted as proved)',
+        text="Seeded collections of dyadic per-sample posteriors x thresholds: ALT iff occurrence >= threshold in some sample, REF first, REFMASKED iff REF below threshold, ALT order by summed dosage; program.call_sample_genotypes with prescribed traces: GT '.' exactly for excluded haplotypes, sorted, allele 0 unused when REFMASKED (incl. NOA), GP has one entry per genotype of the record, AFP/GP sum <= 1.",
+        design_ref="DESIGN.md 4", note=BASE_NOTE),
+    "C16": dict(category="exploration", technique='run-time contracts of the property evaluated on the real functions over enumerated / seeded bounded domains against oracles written from the property statement (bounded stand-in, never counted as proved)',
+        text="Generated records parsed by pysam x frequency tags (Float and Integer) x (field, operator, literal) grid: exactly the failing ALTs removed, failing REF masked, prior normalised over retained alleles (NaN when all zero); call and call-exact with masked / zero-prior alleles at every position: never in GT, zero and R-length AFP, NOA/AF0 with missing calls instead of aborting.",
+        design_ref="DESIGN.md 4, 5 (F10, F11)", note=BASE_NOTE),
+    "C20": dict(category="exploration", technique='run-time contracts of the property evaluated on the real functions over enumerated / seeded bounded domains against oracles written from the property statement (bounded stand-in, never counted as proved)',
+        text="Generated haplotype VCFs (ALT-less, monomorphic SNVs, '.' alleles, mixed ploidy, ACP/AFP/none, SNVDP): format_vcf_snv_block equals the per-site projection (POS, REF/ALT by first appearance, phased GT, PS, AC, ACP, DS) and accepts every record shape.",
+        design_ref="DESIGN.md 4, 5 (F6, F7)", note=BASE_NOTE),
+    "C12": dict(category="exploration", technique='run-time contracts of the property evaluated on the real functions over enumerated / seeded bounded domains against oracles written from the property statement (bounded stand-in, never counted as proved)',
+        text="Round trip format_haplotypes(encode_haplotypes()) and SNV positions / first-appearance numbering on generated records (every single-SNV offset incl. last base); assemble -> call / call-exact pipeline on the repository test alignments for several regions / thresholds (REFMASKED, NOA, last-base SNV): same CHROM/POS/REF/ALT, complete genotypes unless NOA/AF0.",
+        design_ref="DESIGN.md 4", note=BASE_NOTE),
+    "C06": dict(category="exploration", technique='run-time contracts of the property evaluated on the real functions over enumerated / seeded bounded domains against oracles written from the property statement (bounded stand-in, never counted as proved)',
+        text="Synthetic BAMs (two read groups, CIGAR M/I/D/S, flags, MAPQ grid, overlapping mates) x loci x MAPQ thresholds x all keep-flag combinations x read-group field: read matrix == filtered pileup of the construction (one row per name, mates merged, disagreement N); RCOUNT / RCALLS / de-duplicated counts; reference mismatch raises.",
+        design_ref="DESIGN.md 4", note=BASE_NOTE + "pysam fetch / get_aligned_pairs semantics are exercised, not proved."),
+    "C07": dict(category="exploration", technique='run-time contracts of the property evaluated on the real functions over enumerated / seeded bounded domains against oracles written from the property statement (bounded stand-in, never counted as proved)',
+        text="The four programs run in-process on the repository test alignments x --report sets (default, all, single prefixed fields): independent text parser + pysam: declared keys, cardinalities 1/A/R/G per ploidy, GT well-formed, REF == reference sequence, ALT differ only at SNVPOS, AC/AN/UAN/NS recomputed, AFP/GP <= 1, INFO ACP totals; vcfstr rounds to three decimals.",
+        design_ref="DESIGN.md 4", note=BASE_NOTE),
+    "C08": dict(category="exploration", technique='run-time contracts of the property evaluated on the real functions over enumerated / seeded bounded domains against oracles written from the property statement (bounded stand-in, never counted as proved)',
+        text="assemble x {repeat, --cores 2/3, reversed / subset / single target lists}; call, call-exact, call-pedigree x {repeat, --cores 2}: identical headers and per-locus records, each locus exactly once; injected failing locus fails the run for cores 1 and 2; seeded fits (incl. seed 0) identical after arbitrary RNG history for all four samplers.",
+        design_ref="DESIGN.md 4", note=BASE_NOTE + "Only the schedules that occurred are covered: no claim over all interleavings."),
+    "C19": dict(category="other", technique='run-time contracts of the property evaluated on the real functions over enumerated / seeded bounded domains against oracles written from the property statement (bounded stand-in, never counted as proved)',
+        text="Synthetic BAM with every flag class x MAPQ x base: bam_region_depths follows --mapping-quality and each keep flag (24 option sets); write_vcf_block on 3 synthetic samples x threshold grid: positions emitted, alleles listed (individual thresholds met within one sample), REFMASKED, ALT order.",
+        design_ref="DESIGN.md 4, 5 (F5)", note=BASE_NOTE + "pysam pileup defaults (orphans, base quality 13, overlaps) avoided by construction."),
 }
 
 NOT_APPLICABLE = {
